@@ -26,7 +26,11 @@ def pair_match(thir, adt):
         if m.get("k") == "match" and m.get("src", "").startswith("Normal") and m.get("sty", "").startswith("(") \
                 and m["sty"].count(adt + "<") == 2:
             out.append(m)
-    return out
+    # a table split over a single-use helper is one table (core.merge_delegating_arms); the helper's own match is then not a second one
+    from core import merge_delegating_arms
+    merged = [merge_delegating_arms(m) for m in out]
+    inner = {id(a) for m0, mm in zip(out, merged) if mm is not m0 for a in mm.get("arms", [])}
+    return [mm for m0, mm in zip(out, merged) if not (mm is m0 and any(id(a) in inner for a in m0.get("arms", [])))]
 
 
 def arm_class(body):
@@ -217,7 +221,7 @@ def run(ck, facts, tier):
         b = need_body(ck, facts, R, fn)
         if not b:
             continue
-        ms = pair_match(b.thir, adt_)
+        ms = pair_match(facts.thir(b.key), adt_)
         if len(ms) != 1:
             ck.violation(R, "%s:match" % what, b.where(), "expected one match over a pair of %s" % adt_)
             continue
